@@ -614,6 +614,11 @@ impl<'a> Interp<'a> {
         }
     }
 
+    fn decision(&mut self, b: bool) -> V {
+        self.note(0xDC, b as u64);
+        self.boolean(b)
+    }
+
     fn boolean(&self, b: bool) -> V {
         if self.rd.iso {
             V { v: b as i32, bits: 16, sg: Sg::S }
@@ -741,9 +746,20 @@ impl<'a> Interp<'a> {
         let sg = self.combine_sign(l.sg, r.sg);
         let signed = sg == Sg::S;
         let (l, r) = if self.rd.narrowest {
-            // a literal adapts to an 8-bit typed operand by truncation
+            // a literal adapts to an 8-bit typed operand by truncation; one that does not fit
+            // that operand's type at all has no agreed meaning in a comparison
             let mut l = l;
             let mut r = r;
+            if op.is_cmp() {
+                for (lit, other) in [(l, r), (r, l)] {
+                    if lit.sg == Sg::N && other.sg != Sg::N && other.bits == 8 {
+                        let (lo, hi) = if other.sg == Sg::S { (-128, 127) } else { (0, 255) };
+                        if lit.v < lo || lit.v > hi {
+                            return ub("constant outside the range of the 8-bit operand it is compared with");
+                        }
+                    }
+                }
+            }
             if l.sg == Sg::N && r.sg != Sg::N && r.bits == 8 {
                 l = V { v: wrap(l.v as i64, 8, signed), bits: 8, sg: Sg::N };
             }
@@ -839,24 +855,30 @@ impl<'a> Interp<'a> {
             Expr::Un(op, a) => {
                 let c = if *op == UnOp::LNot { 0 } else { ctx };
                 let v = self.eval(a, c)?;
-                Ok(self.unop(*op, v, ctx))
+                let r = self.unop(*op, v, ctx);
+                if *op == UnOp::LNot {
+                    self.note(0x21, r.v as u64);
+                }
+                Ok(r)
             }
             Expr::Bin(op, a, b) => match op {
                 BinOp::LAnd => {
                     let l = self.eval(a, 0)?;
                     if l.v == 0 {
-                        return Ok(self.boolean(false));
+                        return Ok(self.decision(false));
                     }
+                    self.note(0xA1, 1);
                     let r = self.eval(b, 0)?;
-                    Ok(self.boolean(r.v != 0))
+                    Ok(self.decision(r.v != 0))
                 }
                 BinOp::LOr => {
                     let l = self.eval(a, 0)?;
                     if l.v != 0 {
-                        return Ok(self.boolean(true));
+                        return Ok(self.decision(true));
                     }
+                    self.note(0xA2, 0);
                     let r = self.eval(b, 0)?;
-                    Ok(self.boolean(r.v != 0))
+                    Ok(self.decision(r.v != 0))
                 }
                 _ => {
                     let c = if op.is_cmp() { 0 } else { ctx };
@@ -869,7 +891,12 @@ impl<'a> Interp<'a> {
                     let top = self.eff.last_mut().unwrap();
                     top.merge(el);
                     top.merge(er);
-                    self.binop(*op, l, r, ctx)
+                    let v = self.binop(*op, l, r, ctx)?;
+                    if op.is_cmp() {
+                        // comparison outcomes are part of the history the readings must share
+                        self.note(0xCE, v.v as u64);
+                    }
+                    Ok(v)
                 }
             },
             Expr::Assign(op, lv, r) => {
@@ -942,6 +969,7 @@ impl<'a> Interp<'a> {
             }
             Expr::Ternary(c, a, b) => {
                 let cv = self.eval(c, 0)?;
+                self.note(0x7E, (cv.v != 0) as u64);
                 // type of the result follows both arms; evaluate only the selected one
                 let (sel, other) = if cv.v != 0 { (a, b) } else { (b, a) };
                 let v = self.eval(sel, ctx)?;
@@ -1002,12 +1030,12 @@ impl<'a> Interp<'a> {
                     t
                 }
             }),
-            Expr::Lv(LValue::Deref(_)) => Some(self.char_ty()),
+            Expr::Lv(LValue::Deref(p)) => Some(self.pointee_ty(p)),
             Expr::AddrOf(_) => Some(Ty::Ptr),
             Expr::Call(f, _) => self.funcs.get(f).and_then(|f| f.ret),
             Expr::Assign(_, lv, _) | Expr::IncDec(_, _, lv) => match lv {
                 LValue::Var(n) | LValue::Index(n, _) => self.var_ty(n).ok().map(|x| x.0),
-                LValue::Deref(_) => Some(self.char_ty()),
+                LValue::Deref(p) => Some(self.pointee_ty(p)),
             },
             Expr::Un(UnOp::LNot, _) => None,
             Expr::Un(_, a) => self.static_type(a),
